@@ -736,7 +736,7 @@ class Matrix(object):
                     return v[-1]  # if v is shorter than ind, repeat last as necessary
                 return v[ix]
             elif isinstance(v, Matrix):
-                if ix >= count:
+                if ix >= v.columns:
                     return v[0, -1]
                 return v[0, ix]
 
